@@ -357,24 +357,41 @@ def run_trace_step(prop, stp, seed):
 
 
 def validate_io_traces(prop, traces_files, limit):
-    """Trace validation of recorded receiver runs (hook + pipe events) against the permissive receiver specification."""
+    """Trace validation of recorded receiver / sender runs (hook + pipe events) against the IO specifications:
+    receiver runs against the permissive receiver (TraceIoRecv), sender runs against TraceIoSend."""
     os.makedirs(os.path.join(WORK, "traces"), exist_ok=True)
-    merged = os.path.join(WORK, "traces", "%s.iorecv.ndjson" % prop)
-    n = 0
-    with open(merged, "w") as out:
-        for tf in traces_files:
-            if not os.path.exists(tf):
+    merged = {"iorecv": os.path.join(WORK, "traces", "%s.iorecv.ndjson" % prop), "iosend": os.path.join(WORK, "traces", "%s.iosend.ndjson" % prop)}
+    n = {"iorecv": 0, "iosend": 0}
+    outs = {k: open(v, "w") for k, v in merged.items()}
+    for tf in traces_files:
+        if not os.path.exists(tf):
+            continue
+        seen = {"iorecv": 0, "iosend": 0}
+        for line in open(tf):
+            kind = "iosend" if '"kind":"iosend"' in line else "iorecv"
+            i = seen[kind]
+            seen[kind] += 1
+            if n[kind] >= limit:
                 continue
-            for i, line in enumerate(open(tf)):
-                if n >= limit:
-                    break
-                if i % 7 == 0:       # a spread sample of the recorded runs
-                    out.write(line)
-                    n += 1
-    if n == 0:
+            if i % 7 == 0:       # a spread sample of the recorded runs
+                outs[kind].write(line)
+                n[kind] += 1
+    for f in outs.values():
+        f.close()
+    if n["iorecv"] + n["iosend"] == 0:
         return None
-    res = tlc_trace("TraceIoRecv", "TraceIoRecv.cfg", merged)
-    res["runs"] = n
+    res = None
+    for kind, module in (("iorecv", "TraceIoRecv"), ("iosend", "TraceIoSend")):
+        if n[kind] == 0:
+            continue
+        r = tlc_trace(module, module + ".cfg", merged[kind])
+        r["runs"] = n[kind]
+        r["kind"] = kind
+        if res is None:
+            res = r
+        else:
+            res = {"accepted": res["accepted"] and r["accepted"], "rejected": res["rejected"] + r["rejected"], "states": res["states"] + r["states"],
+                   "wall_s": round(res["wall_s"] + r["wall_s"], 1), "cmd": res["cmd"] + "; " + r["cmd"], "runs": res["runs"] + r["runs"], "kind": "iorecv+iosend"}
     return res
 
 
@@ -576,11 +593,11 @@ def main(argv):
                     tv = validate_io_traces(prop, [pr["traces"] for pr in procs], stp.get("io_traces_limit", 400))
                     if tv is not None:
                         st["replay"]["trace"] = tv
-                        st["replay"]["counts"]["trace.iorecv.runs"] = tv["runs"]
-                        log("TLC trace validation of %d recorded receiver runs: %s (%d states, %.1fs)" % (tv["runs"], "accepted" if tv["accepted"] else "REJECTED", tv["states"], tv["wall_s"]))
+                        st["replay"]["counts"]["trace.%s.runs" % tv.get("kind", "iorecv")] = tv["runs"]
+                        log("TLC trace validation of %d recorded %s runs: %s (%d states, %.1fs)" % (tv["runs"], tv.get("kind", "iorecv"), "accepted" if tv["accepted"] else "REJECTED", tv["states"], tv["wall_s"]))
                         if not tv["accepted"]:
-                            sig = "%s|trace|iorecv|rejected" % prop
-                            st["replay"]["sigs"][sig] = {"count": 1, "first": {"prop": prop, "sig": sig, "detail": "recorded receiver run is not a behaviour of the permissive receiver specification: " + tv["rejected"][0][:600],
+                            sig = "%s|trace|%s|rejected" % (prop, tv.get("kind", "iorecv"))
+                            st["replay"]["sigs"][sig] = {"count": 1, "first": {"prop": prop, "sig": sig, "detail": "recorded %s run is not a behaviour of the IO specification: " % tv.get("kind", "iorecv") + tv["rejected"][0][:600],
                                                                                "case": {"k": "trace", "step": {"io": stp["cfg"]}}}}
                 log("replayed %d cases in %.1fs, %d violation signatures" % (st["replay"]["cases_run"], time.time() - tr, len(st["replay"]["sigs"])))
             elif stp["type"] == "trace":
